@@ -273,7 +273,8 @@ def gen_rt(rng, tier):
                        "mark": rng.choice(MARKS) if (src and rng.random() < 0.35) else None})
     typ = rng.choice(TYPES) if rng.random() < 0.9 else (_rand_str(rng, 1, 8).replace(" ", "").replace("\t", "") or "E")
     msg = rng.choice(MSGS) if rng.random() < 0.85 else _rand_str(rng, 0, 20)
-    case = {"kind": "rt", "frames": frames, "type": typ, "msg": msg, "renderer": "std", "bad": None}
+    case = {"kind": "rt", "frames": frames, "type": typ, "msg": msg, "renderer": "std", "bad": None,
+            "bytes": rng.random() < 0.2}
     r = rng.random()
     if r < 0.08 and frames:
         # recursion: one entry repeated 2..7 times (folded by the interpreter from the 4th on)
@@ -457,7 +458,7 @@ def gen_raw(rng, tier):
                 i = rng.randrange(len(lines))
                 lines[i] = lines[i][:rng.randrange(len(lines[i]) + 1)]
         text = "\n".join(lines)
-    return {"kind": "raw", "text": text}
+    return {"kind": "raw", "text": text, "bytes": rng.random() < 0.2}
 
 
 # ---- programs -------------------------------------------------------------------------------------
@@ -726,10 +727,11 @@ def worker_init():
     atexit.register(lambda: shutil.rmtree(_ROOT[0], ignore_errors=True))
 
 
-def _parse_obs(text):
+def _parse_obs(text, as_bytes=False):
     from boltons.tbutils import ParsedException
     try:
-        pe = ParsedException.from_string(text)
+        # from_string also accepts UTF-8 bytes (decode(encode(s)) = s is CPython's)
+        pe = ParsedException.from_string(text.encode("utf-8") if as_bytes else text)
     except ValueError:
         return {"err": "ValueError"}, {"err": "ValueError"}
     except IndexError:
@@ -755,10 +757,10 @@ def run_impl(case):
     kind = case["kind"]
     if kind == "rt":
         text = std_render(case) if case["renderer"] == "std" else plain_render(case)
-        parsed, printed = _parse_obs(text)
+        parsed, printed = _parse_obs(text, case.get("bytes", False))
         return {"text": text, "parsed": parsed, "printed": printed}
     if kind == "raw":
-        parsed, printed = _parse_obs(case["text"])
+        parsed, printed = _parse_obs(case["text"], case.get("bytes", False))
         return {"parsed": parsed, "printed": printed}
     if kind == "re":
         from boltons import tbutils
@@ -1138,6 +1140,7 @@ def distribution(d, case, obs):
         if any(not f["src"] for f in case["frames"][-1:]):
             inc("rt_last_frame_without_source", "yes")
         inc("rt_outcome", "parsed" if "err" not in obs["parsed"] else obs["parsed"]["err"])
+        inc("rt_input_type", "bytes" if case.get("bytes") else "str")
     elif kind == "re":
         inc("re_outcome", "%s:%s" % (("frame", "se_frame", "underline", "repeat")[case["which"]], "match" if obs["groups"] is not None else "no"))
     elif kind == "stack":
@@ -1220,4 +1223,4 @@ def shrink(case):
     elif kind == "raw":
         lines = case["text"].split("\n")
         for i in range(len(lines)):
-            yield {"kind": "raw", "text": "\n".join(lines[:i] + lines[i + 1:])}
+            yield {"kind": "raw", "text": "\n".join(lines[:i] + lines[i + 1:]), "bytes": case.get("bytes", False)}
